@@ -60,7 +60,15 @@ def single_case(draw, mode):
 def borderline_case(draw, mode):
     """Constructions the library normally refuses (shape-changing strict diagonal, non-square observation matrix).
     If a (modified) library accepts them, the resulting instance must still not carry a false tag."""
-    what = draw(st.sampled_from(['diag_unit_axis', 'diag_unit_axis', 'toast_nonsquare']))
+    what = draw(st.sampled_from(['diag_unit_axis', 'diag_unit_axis', 'toast_nonsquare', 'diag_trailing_unit']))
+    if what == 'diag_trailing_unit':
+        k = draw(st.integers(2, 4))
+        form = draw(st.sampled_from(['k1_axis0', '1_axis1']))
+        S = St.leaf([k], 'float32')
+        if draw(st.booleans()):
+            S = {'t': 'tuple', 'items': [S, St.leaf([k, draw(st.integers(1, 2))], 'float32')]}
+        vals = [[draw(st.sampled_from([2.0, -1.0, 3.0]))] for _ in range(k)] if form == 'k1_axis0' else [draw(st.sampled_from([2.0, 3.0]))]
+        return {'special': 'diag_unit_axis', 'S': S, 'vals': vals, 'axis': 0 if form == 'k1_axis0' else 1, 'probe': [1] * 8}
     if what == 'diag_unit_axis':
         k = draw(st.integers(2, 3))
         other = [draw(st.integers(1, 3)) for _ in range(draw(st.integers(0, 1)))]
